@@ -11,7 +11,8 @@ RULE = ("A case is (device id, wall-clock epoch + jumps, sequence of 1-4 LAN.sen
         "with a request frame and an independent response frame of arbitrary bytes, optional unsolicited packets after "
         "the response). Part 'length_sweep' enumerates every request length 0..255 (response length 255-L) for each of "
         "16 boundary ids x 6 boundary epochs; part 'random' draws ids, clocks, contents (incl. tails that look like "
-        "PKCS7 padding). Distinct = distinct (id, epoch, frames); non-trivial = every case (each exercises both codec "
+        "PKCS7 padding; some frames are handed over in a bytearray and the same buffer object is sent in two "
+        "exchanges). Distinct = distinct (id, epoch, frames); non-trivial = every case (each exercises both codec "
         "directions against the independent implementation).")
 ASSUMPTIONS = [
     "reference V2 codec (refmodel/codec.py) is calibrated against the captured real-device packet",
@@ -60,12 +61,20 @@ def run(plan):
     async def main(w):
         lan = w.ns.LAN(s_host(), 6444, cfg["device_id"])
         pending = []
+        buf = [None]
         for op in plan["ops"]:
             if op["op"] == "jump":
                 w.clock.jump(op["s"])
                 w.fire("clock_jump")
                 continue
             frame = bytes.fromhex(op["frame"])
+            arg = frame
+            if op.get("reuse_buffer") and buf[0] is not None:
+                arg = buf[0]                    # the caller polls with the very same buffer object again
+                w.fire("same_buffer_sent_again")
+            elif op.get("as_bytearray"):
+                arg = buf[0] = bytearray(frame)  # bytes-like caller buffer holding the frame
+                w.fire("frame_passed_as_bytearray")
             state["reply"] = bytes.fromhex(op["reply"])
             state["post"] = [bytes.fromhex(x) for x in op.get("post", [])]
             ndrop = op.get("drops", 0)
@@ -73,7 +82,7 @@ def run(plan):
             n0 = len(dev.log)
             now = w.clock.now()
             try:
-                got = await lan.send(frame, retries=1 + ndrop)
+                got = await lan.send(arg, retries=1 + ndrop)
             except Exception as e:
                 res.fail(f"LAN.send raised {type(e).__name__}", f"{e!r} frame_len={len(frame)} reply_len={len(state['reply'])}")
                 return
@@ -173,6 +182,12 @@ def space(tier):
                 op["lat"] = rng.choice([0.05, 1.0, 1.9])
             if rng.random() < 0.2 and ep[0] < 9000:
                 op["drops"] = rng.randint(1, 2)
+            if rng.random() < 0.15:
+                # a bytes-like caller buffer, sent in two exchanges: both carry the frame the caller put into it
+                op["as_bytearray"] = True
+                ops.append(op)
+                op = dict(op, reply=special_frame(rng, rng.randint(0, 255)).hex(), reuse_buffer=True)
+                op.pop("post", None)
             ops.append(op)
         return {"config": {"version": 2, "device_id": rand_id(rng), "epoch": ep}, "ops": ops}
     sp.add("random", 20000 if tier == "quick" else 600_000, rnd)
